@@ -610,6 +610,41 @@ func TestSeeds(t *testing.T) {
 	}
 }
 
+// Query values (the AST objects of _query_fromstring) with one node removed or
+// replaced: _query_tostring hands them to the engine's printer, which assumes
+// a well formed query (found by a seeding agent: {term:{type:"TermTypeFunc"}}
+// was a nil dereference; repaired in 457f2797).  Every path of the AST of ~40
+// programs that cover every term type x {delete, null, string, array, object}.
+var astPrograms = []string{
+	`.`, `..`, `.a`, `.a.b[0]`, `.[1:2]`, `.[]?`, `."k"`, `.["k"]?`, `$x`, `$__loc__`, `f`, `f(1; .a)`, `-1`, `1 + 2 * 3`, `.a // "d"`, `1 as $x | $x`,
+	`. as [$a, {b: $c}] | $a`, `. as [$a] ?// $a | $a`, `if . then 1 elif .a then 2 else 3 end`, `try error("x") catch .`, `.a?`, `reduce .[] as $x (0; . + $x)`,
+	`foreach .[] as $x (0; . + $x; [.])`, `label $out | 1, break $out`, `def f(g; $a): g + $a; f(1; 2)`, `[1, 2]`, `{a: 1, "b": 2, (.c): 3, $x, @base64 "k": 4}`,
+	`"a\(1 + 2)b"`, `@base64 "x\(.)"`, `@json`, `.a = 1 | .b |= . + 1 | .c += 2`, `.[] as {a: $x} | $x`, `1, 2 | 3`, `not and true or false`, `. == 1 and . != 2`,
+	`import "a" as a; include "b"; a::f`, `limit(3; repeat(1))`, `.. |= (numbers | . + 1)`, `path(.a[].b?)`, `{} | .a.b.c`, `[.[] | select(. > 1)]`, `.a[1:][0]`,
+}
+
+func TestQueryASTs(t *testing.T) {
+	r := &runner{t: t}
+	defer r.reset()
+	muts := []string{`delpaths([$p])`, `setpath($p; null)`, `setpath($p; "x")`, `setpath($p; [])`, `setpath($p; {})`, `setpath($p; {"type": "TermTypeFunc"})`, `setpath($p; 1)`}
+	n := 0
+	for pi, prog := range astPrograms {
+		for mi, m := range muts {
+			n++
+			if !harness.Mine(n) {
+				continue
+			}
+			pj, _ := json.Marshal(prog)
+			c := caseT{Fn: "_query_tostring", Ar: 0,
+				RawIn:   "(" + string(pj) + " | _query_fromstring)",
+				RawCall: `(. as $q | [paths] as $ps | [$ps[] as $p | ($q | ` + m + `) | try (_query_tostring | 1) catch 0] | [length, add])`}
+			_ = pi
+			_ = mi
+			r.single(c)
+		}
+	}
+}
+
 // replay of one case descriptor
 func TestReplay(t *testing.T) {
 	test, raw, ok := harness.LoadReplayCase()
